@@ -142,7 +142,9 @@ def stepOK (W : Nat) (neg : Bool) (lo : Option Dbl) (r : Row) : Bool :=
    | 1 => r.lnum == 0 && r.strict && decide (1 ≤ r.prec) &&
        (match lo with
         | some l => decide (0 < l.den) &&
-            ((W != 8) || (decide (l.den ≤ 10 ^ 9 * l.num) && decide ((rowB r).num * 10 ^ 1 ≤ (rowB r).den)))
+            ((W != 8) || (decide (l.den ≤ 10 ^ 9 * l.num) && decide ((rowB r).num * 10 ^ 1 ≤ (rowB r).den))) &&
+            (!neg || (decide (r.prec + 1 ≤ 250) && decide (r.prec % 10 ≠ 0) &&
+              decide ((r.prec + 1) % 10 ≠ 0) && decide (l.den ≤ 10 ^ (r.prec + 1) * l.num)))
         | none => false)
    | _ => r.lnum == 0 && r.strict && decide (RowOK W neg r) &&
        decide ((rowB r).num * r.den ≤ r.num * (rowB r).den) && decide (0 < r.den) &&
@@ -153,15 +155,6 @@ def stepOK (W : Nat) (neg : Bool) (lo : Option Dbl) (r : Row) : Bool :=
 def chainOK (W : Nat) (neg : Bool) : Option Dbl → List Row → Bool
   | _, [] => true
   | lo, r :: rs => stepOK W neg lo r && chainOK W neg (nextLo lo r) rs
-
-/-- the pairs (lower bound, precision) of the mixed rows of a chain: where the negative mixed
-branch needs `|x| > ½·10^-p` -/
-def sliverPairs : Option Dbl → List Row → List (Dbl × Nat)
-  | _, [] => []
-  | lo, r :: rs =>
-    (match r.kind, lo with
-     | 1, some l => [(l, r.prec)]
-     | _, _ => []) ++ sliverPairs (nextLo lo r) rs
 
 /-- the test of a strict row without range guard, on magnitudes -/
 theorem rowTest_strict (neg : Bool) (r : Row) (x : Dbl) (hx : x.neg = neg) (hl : r.lnum = 0)
@@ -206,7 +199,6 @@ theorem step_good (W : Nat) (c : Sci) (neg : Bool) (hc : SciOK W c 0) (lo : Opti
     (hok : stepOK W neg lo r = true) (x : Dbl) (hx : x.neg = neg) (hn : 0 < x.num) (hd : 0 < x.den)
     (hlo : x.den ≤ 10 ^ 999 * x.num) (hhi : x.num < 10 ^ 999 * x.den)
     (hlow : ∀ l, lo = some l → mge x l)
-    (hsl : ∀ l, lo = some l → r.kind = 1 → neg = true → x.den < 2 * (x.num * 10 ^ r.prec))
     (htest : rowTest neg r x = true) : Good W (rowBody W c neg r x) := by
   unfold stepOK at hok
   simp only [Bool.and_eq_true, Bool.not_eq_true', decide_eq_true_eq] at hok
@@ -224,8 +216,9 @@ theorem step_good (W : Nat) (c : Sci) (neg : Bool) (hc : SciOK W c 0) (lo : Opti
     | none => rw [hloeq] at hlo'; exact absurd hlo' (by simp)
     | some l =>
       rw [hloeq] at hlo'
-      simp only [Bool.and_eq_true, decide_eq_true_eq, Bool.or_eq_true, bne_iff_ne, ne_eq] at hlo'
-      obtain ⟨hlden, h8c⟩ := hlo'
+      simp only [Bool.and_eq_true, decide_eq_true_eq, Bool.or_eq_true, bne_iff_ne, ne_eq,
+        Bool.not_eq_true'] at hlo'
+      obtain ⟨⟨hlden, h8c⟩, hnegc⟩ := hlo'
       have hge := hlow l hloeq
       have hlt : mlt x (rowB r) := by
         rw [rowTest_strict neg r x hx hl0 hs hbneg] at htest
@@ -244,9 +237,11 @@ theorem step_good (W : Nat) (c : Sci) (neg : Bool) (hc : SciOK W c 0) (lo : Opti
       | true =>
         have : rowBody W c true r x = smallNeg W r.prec c x := by simp [rowBody, hk]
         rw [this]
-        obtain ⟨f, hwf, hlen, hshape, _⟩ := smallNeg_good_partial W r.prec c hc hp x hx hn hd hlo hhi
-          (hsl l hloeq hk rfl) h8
-        exact ⟨f, hwf, hlen, hshape⟩
+        rcases hnegc with h | ⟨⟨⟨h250, hm1⟩, hm2⟩, hl1⟩
+        · exact absurd h (by simp)
+        · obtain ⟨f, hwf, hlen, hshape, _⟩ := smallNeg_good W r.prec c hc hp h250 ⟨hm1, hm2⟩ x hx hn hd
+            hlo hhi (mge_pow' x l (r.prec + 1) hlden hge hl1) h8
+          exact ⟨f, hwf, hlen, hshape⟩
   · -- kinds 2, 3: fixed notation
     rw [hk] at hkind
     simp only [Bool.and_eq_true, beq_iff_eq, decide_eq_true_eq] at hkind
@@ -280,18 +275,11 @@ theorem step_good (W : Nat) (c : Sci) (neg : Bool) (hc : SciOK W c 0) (lo : Opti
 
 /-! ### the whole chain -/
 
-theorem sliverPairs_sub (lo : Option Dbl) (r : Row) (rs : List Row) :
-    ∀ lp ∈ sliverPairs (nextLo lo r) rs, lp ∈ sliverPairs lo (r :: rs) := by
-  intro lp h
-  simp only [sliverPairs]
-  exact List.mem_append_right _ h
-
 theorem chain_good (W : Nat) (c : Sci) (neg : Bool) (hc : SciOK W c 0) (last : Dbl → Str)
     (rows : List Row) (lo : Option Dbl) (hok : chainOK W neg lo rows = true)
     (x : Dbl) (hx : x.neg = neg) (hn : 0 < x.num) (hd : 0 < x.den)
     (hlo : x.den ≤ 10 ^ 999 * x.num) (hhi : x.num < 10 ^ 999 * x.den)
     (hlow : ∀ l, lo = some l → mge x l)
-    (hsl : ∀ lp ∈ sliverPairs lo rows, neg = true → mge x lp.1 → x.den < 2 * (x.num * 10 ^ lp.2))
     (hlast : (∀ r ∈ rows, rowTest neg r x = false) → Good W (last x)) :
     Good W (chain W c neg last rows x) := by
   induction rows generalizing lo with
@@ -302,11 +290,7 @@ theorem chain_good (W : Nat) (c : Sci) (neg : Bool) (hc : SciOK W c 0) (last : D
     unfold chain
     by_cases htest : rowTest neg r x = true
     · simp only [htest, if_true]
-      apply step_good W c neg hc lo r hstep x hx hn hd hlo hhi hlow _ htest
-      intro l hl hk hneg
-      apply hsl (l, r.prec) _ hneg (hlow l hl)
-      simp only [sliverPairs, hk, hl]
-      exact List.mem_append_left _ (by simp)
+      exact step_good W c neg hc lo r hstep x hx hn hd hlo hhi hlow htest
     · have hfalse : rowTest neg r x = false := by simpa using htest
       simp only [hfalse, Bool.false_eq_true, if_false]
       apply ih (nextLo lo r) hrest
@@ -324,8 +308,6 @@ theorem chain_good (W : Nat) (c : Sci) (neg : Bool) (hc : SciOK W c 0) (last : D
           exact (not_mlt_iff x (rowB r)).1 (by simpa using hfalse)
         · simp only [hcond, Bool.false_eq_true, if_false] at hl
           exact hlow l hl
-      · intro lp hlp
-        exact hsl lp (sliverPairs_sub lo r rs lp hlp)
       · intro hall
         apply hlast
         intro r' hr'
@@ -475,13 +457,11 @@ instance (W : Nat) (pos neg : List Row) (a b : Nat × Nat) : Decidable (FormatOK
 
 /-- **the whole of `format_floatW`** as interpreted from its tables: for every fraction that is
 zero or has `10^-999 ≤ |x| < 10^999` the result is a well-formed field of the emitted grammar,
-right-justified in `W` characters (`hsl`: in the negative mixed branch `x` does not round to zero
-at the branch's precision — see `small_branch_neg_partial`). -/
+right-justified in `W` characters. -/
 theorem formatFloat_good (W : Nat) (c : Sci) (pos neg : List Row) (posLast negLast : Nat × Nat)
     (hc : SciOK W c 0) (hW : 3 ≤ W) (hok : FormatOK W pos neg posLast negLast)
     (x : Dbl) (hd : 0 < x.den)
-    (hr : x.num = 0 ∨ (x.den ≤ 10 ^ 999 * x.num ∧ x.num < 10 ^ 999 * x.den))
-    (hsl : x.neg = true → ∀ lp ∈ sliverPairs none neg, mge x lp.1 → x.den < 2 * (x.num * 10 ^ lp.2)) :
+    (hr : x.num = 0 ∨ (x.den ≤ 10 ^ 999 * x.num ∧ x.num < 10 ^ 999 * x.den)) :
     Good W (if geZero x then chain W c false (lastPos W c posLast) pos x
             else chain W c true (lastNeg W c negLast) neg x) := by
   obtain ⟨hcp, hlp, hfp, hcn, hln, hpl, hnl⟩ := hok
@@ -521,13 +501,11 @@ theorem formatFloat_good (W : Nat) (c : Sci) (pos neg : List Row) (posLast negLa
       have hge : geZero x = true := by simp [geZero, hxn]
       simp only [hge, if_true]
       exact chain_good W c false hc _ pos none hcp x hxn hn hd hlo hhi (by simp)
-        (fun lp _ h => absurd h (by simp))
         (fun hall => last_pos_good W c hc (by omega) pos hlp x hxn hn hd hlo hhi hall)
     | true =>
       have hge : geZero x = false := by simp [geZero, hxn, hz]
       simp only [hge, Bool.false_eq_true, if_false]
       exact chain_good W c true hc _ neg none hcn x hxn hn hd hlo hhi (by simp)
-        (fun lp hlp _ hm => hsl hxn lp hlp hm)
         (fun hall => last_neg_good W c hW neg hln x hxn hd hall)
 
 end PyYetiVerif.NasFloat
